@@ -257,6 +257,7 @@ func (w *fsmWorld) do(idx int, ev string, args []string) (string, bool) {
 	resp, derr, p := safeDo(inst, ev, buildReq(args))
 	ob := observe(inst, resp, derr, p)
 	w.last = inst
+	w.noteStep(idx, ev, args)
 	if w.mon != nil {
 		w.mon.check(w.store[idx], inst, ev, args, resp != nil && derr == nil && !p, resp == nil, p, idx)
 	}
@@ -357,6 +358,7 @@ func (w *fsmWorld) keep() (int, bool) {
 		}
 	}
 	w.storeRoundTrip(bz)
+	w.unsavedStep()
 	w.store = append(w.store, bz)
 	w.emit("keep", fmt.Sprintf("kept %d", len(w.store)-1))
 	return len(w.store) - 1, true
